@@ -53,6 +53,9 @@ def ingest(prop, ks, root="/tmp/mut", tag=""):
         json.dump(meta, open(os.path.join(dst, "meta.json"), "w"), indent=1)
 
 
+SEEDS = [int(x) for x in os.environ.get("SEEDED_SEEDS", "0").split(",")]
+
+
 def evaluate(ids, all_checks=False):
     ids = ids or sorted(os.listdir(SEEDED))
     rc, out = sh("git status --porcelain", cwd=REPO)
@@ -73,15 +76,26 @@ def evaluate(ids, all_checks=False):
                 props = [c["property_id"] for c in man["checks"]]
             for p in props:
                 t0 = time.time()
-                rc, out = sh(["./check", p, "quick"], cwd=HERE)
-                v = [l for l in out.split("\n") if l.startswith("VIOLATION")]
-                res[p] = {"rc": rc, "violation_lines": v, "wall_s": round(time.time() - t0, 1), "tail": out.strip().split("\n")[-1][:300]}
+                per_seed = {}
+                for sd in SEEDS:
+                    os.environ["VERIF_SEED"] = str(sd)
+                    rc, out = sh(["./check", p, "quick"], cwd=HERE)
+                    v = [l for l in out.split("\n") if l.startswith("VIOLATION")]
+                    per_seed[sd] = (rc, v, out.strip().split("\n")[-1][:300])
+                os.environ.pop("VERIF_SEED", None)
+                rcs = [x[0] for x in per_seed.values()]
+                rc = 1 if all(r == 1 for r in rcs) else (2 if any(r == 2 for r in rcs) else 0)      # detected = on every seed tried
+                v = [l for x in per_seed.values() for l in x[1]]
+                res[p] = {"rc": rc, "violation_lines": v, "wall_s": round(time.time() - t0, 1), "tail": list(per_seed.values())[0][2],
+                          "seeds": {str(k): x[0] for k, x in per_seed.items()}}
         finally:
             sh("git -C %s checkout -- . && git -C %s clean -fdq mpilot" % (REPO, REPO))
         meta["detection"] = res
         meta["detected_by"] = sorted(p for p, r in res.items() if r["rc"] == 1)
         json.dump(meta, open(os.path.join(d, "meta.json"), "w"), indent=1)
-        print("%s: %s" % (sid, {p: (r["rc"], "nfif" if any("no-failing-input-found" in l for l in r["violation_lines"]) else "") for p, r in res.items()}))
+        print("%s: %s" % (sid, {p: (r["rc"], "nfif" if any("no-failing-input-found" in l for l in r["violation_lines"]) else "",
+                                      "" if len(SEEDS) == 1 else r["seeds"]) for p, r in res.items()}))
+        sys.stdout.flush()
 
 
 def isolated(ids):
